@@ -2152,14 +2152,33 @@ impl LpgStore {
             nodes.retain(|_, chain| !chain.is_empty());
         }
 
-        // Remove uncommitted edge versions
+        // Remove uncommitted edge versions, remembering the edges that disappear
+        // altogether so their adjacency entries can go too
+        let mut discarded_edges: Vec<(EdgeId, NodeId, NodeId)> = Vec::new();
         {
             let mut edges = self.edges.write();
-            for chain in edges.values_mut() {
+            for (id, chain) in edges.iter_mut() {
+                if !chain.modified_by(tx_id) {
+                    continue;
+                }
+                let endpoints = chain.latest().map(|r| (r.src, r.dst));
                 chain.remove_versions_by(tx_id);
+                if chain.is_empty() {
+                    if let Some((src, dst)) = endpoints {
+                        discarded_edges.push((*id, src, dst));
+                    }
+                }
             }
             // Remove completely empty chains (no versions left)
             edges.retain(|_, chain| !chain.is_empty());
+        }
+
+        for (id, src, dst) in discarded_edges {
+            self.forward_adj.mark_deleted(src, id);
+            if let Some(ref backward) = self.backward_adj {
+                backward.mark_deleted(dst, id);
+            }
+            self.edge_properties.remove_all(id);
         }
     }
 
